@@ -167,16 +167,31 @@ func (p *Program) resolveType(s string, cur *types.Package) types.Type {
 		return types.Typ[types.Uint32]
 	}
 	if i := strings.LastIndex(s, "."); i >= 0 {
-		pk := p.pkgByQual(s[:i])
-		if pk == nil {
-			return nil
+		if pk := p.pkgByQual(s[:i]); pk != nil {
+			if o := pk.Scope().Lookup(s[i+1:]); o != nil {
+				if tn, ok := o.(*types.TypeName); ok {
+					return tn.Type()
+				}
+			}
 		}
-		o := pk.Scope().Lookup(s[i+1:])
-		if o == nil {
-			return nil
-		}
-		if tn, ok := o.(*types.TypeName); ok {
-			return tn.Type()
+		// Type.field : the type of that struct field (used to name map types in binders)
+		if st := p.resolveType(s[:i], cur); st != nil {
+			if str, ok := st.Underlying().(*types.Struct); ok {
+				for k := 0; k < str.NumFields(); k++ {
+					if str.Field(k).Name() == s[i+1:] {
+						return str.Field(k).Type()
+					}
+				}
+			}
+			// Map.elem / Map.key
+			if mt, ok := st.Underlying().(*types.Map); ok {
+				switch s[i+1:] {
+				case "elem":
+					return mt.Elem()
+				case "key":
+					return mt.Key()
+				}
+			}
 		}
 		return nil
 	}
